@@ -42,8 +42,8 @@ def run(chk):
     for kname in K.KERNELS:
         chk.section(f'{kname}: operand shapes', shape_contract, kname)
     lemmas(chk)
-    graph_table(chk)
-    composition_error(chk)
+    chk.section('graph table', graph_table)
+    chk.section('rounding error of compositions', composition_error)
     total, cells, fails = K.grid_check(chk, per_kernel=None)
     chk.bounded_check('kernel-grid', 'real elastic kernels vs mpmath reference (40 digits): value within 1e-11 (1e-5 with float32 operands), '
                       'documented unit, dtype contract', f'all {cells} cells of the unit x dtype grid, one random value per cell', total, fails)
